@@ -36,6 +36,9 @@ func payload(i int) []byte {
 
 func (s scen) config() *stack.Config {
 	cfg := &stack.Config{TimeoutSec: timeoutSec}
+	if s.rt == "stall1-ignoreterm" {
+		cfg.RuntimeOnTerm = "ignore"
+	}
 	cfg.Runtime = func(rt *stack.Actor) {
 		for {
 			n := rt.Next()
@@ -45,7 +48,7 @@ func (s scen) config() *stack.Config {
 			switch {
 			case s.rt == "slow":
 				rt.Sleep(1000 * time.Millisecond)
-			case s.rt == "stall1" && rt.Gen == 1:
+			case strings.HasPrefix(s.rt, "stall1") && rt.Gen == 1:
 				rt.Stall()
 			}
 			if r := rt.Response(n.ReqID, n.Body); r.Status != 202 {
@@ -121,6 +124,26 @@ func (s scen) judge(e *sched.Exec) (string, string, *sched.Failure) {
 			fail = &sched.Failure{Clause: clause, Sig: sig, Msg: fmt.Sprintf(f, a...) + "\n" + w.Render(false)}
 		}
 	}
+	// the teardown window of the first environment on the virtual clock: from the first signal to the last exit
+	// of a process that was started before it
+	var t0, tEnd int64 = -1, -1
+	started := map[int]bool{}
+	for _, k := range w.K.Log {
+		switch k.Kind {
+		case "exec":
+			if t0 < 0 {
+				started[k.Pid] = true
+			}
+		case "signal":
+			if t0 < 0 {
+				t0 = k.TimeNs
+			}
+		case "exit":
+			if t0 >= 0 && started[k.Pid] && k.TimeNs > tEnd {
+				tEnd = k.TimeNs
+			}
+		}
+	}
 	served := map[string]bool{}
 	for _, inv := range w.Invokes {
 		class := "other"
@@ -139,6 +162,9 @@ func (s scen) judge(e *sched.Exec) (string, string, *sched.Failure) {
 			class = "timeout"
 		}
 		out = append(out, class)
+		if t0 >= 0 && inv.IssuedNs > t0 && inv.IssuedNs < tEnd && class != "refused" {
+			failf("3", "admitted-during-reset:"+class, "caller %d arrived at %d ms while the reset of the timed-out invocation was tearing the environment down (%d..%d ms) and was not refused: status %d body %q", inv.Idx, inv.IssuedNs/1e6, t0/1e6, tEnd/1e6, inv.Status, trunc(inv.Body))
+		}
 		if class == "other" || class == "aborted" {
 			failf("3", fmt.Sprintf("bad-outcome:status=%d:body=%s", inv.Status, bodyClass(w, inv)), "caller %d (payload %s) got status %d body %q: neither an immediate refusal nor service of its own payload", inv.Idx, inv.Payload, inv.Status, trunc(inv.Body))
 		}
@@ -165,7 +191,7 @@ func (s scen) judge(e *sched.Exec) (string, string, *sched.Failure) {
 		}
 	}
 	for p, n := range seen {
-		if n > 1 && s.rt != "stall1" {
+		if n > 1 && !strings.HasPrefix(s.rt, "stall1") {
 			failf("2", "delivered-twice", "payload %s was delivered to the runtime %d times", p, n)
 		}
 	}
@@ -249,6 +275,12 @@ func init() {
 				ss = append(ss, scen{rt: rt, ext: ext, delays: []int{-1}, bound: 1})
 			}
 		}
+		// a teardown that takes virtual time (runtime ignores SIGTERM, killed after 30% of 2 s): callers arriving
+		// inside it must be refused
+		for _, d := range []int{3001, 3300, 3599, 3600} {
+			ss = append(ss, scen{rt: "stall1-ignoreterm", ext: true, delays: []int{d}, bound: 1})
+		}
+		ss = append(ss, scen{rt: "stall1-ignoreterm", ext: true, delays: []int{3100, 3500}, bound: 1})
 		if tier == "quick" {
 			// a few deeper ones on the smallest configuration
 			ss = append(ss, scen{rt: "fast", ext: false, delays: []int{0}, bound: 2})
